@@ -4,6 +4,7 @@ import GBS.Model.Mixture
 import GBS.Model.SysGen
 import GBS.Model.FF
 import GBS.Model.Parse
+import GBS.Model.ReactGraph
 /-! JSON codecs for the line protocol (driver only; not part of the verified model). -/
 open Lean
 namespace GBS.Driver
